@@ -35,7 +35,7 @@ CLAIMED = {
              "is written only at offsets the cursor already accepted, and the symbolic raw writes of ICMP/ICMPv6 (extension "
              "block and padding) lie inside the layer's trailer region on every cell - found and fixed the ICMP extension "
              "offset for timestamp/address-mask messages; (R4) the driver composes the layers' regions; (R5) no "
-             "throw site other than the cursor's bound checks and 8 tabled, reasoned ones is reachable while serialising. (R6) the caching wrapper PDUCacher<T> copies into the output buffer exactly size() bytes of the container it copies from (never total_sz, which also counts the layers stacked on it). (R1 also requires, for accessor-maintained counts, a dominating test that the count is below the field's maximum before it is incremented; R7: no variable is read after it was handed to std::move.) (R8) the same cursor invariant, shared with C01.R5: it is what makes the output cursor's bound checks meaningful.",
+             "throw site other than the cursor's bound checks and 8 tabled, reasoned ones is reachable while serialising. (R6) the caching wrapper PDUCacher<T> copies into the output buffer exactly size() bytes of the container it copies from (never total_sz, which also counts the layers stacked on it). (R1 also requires, for accessor-maintained counts, a dominating test that the count is below the field's maximum before it is incremented; R7: no variable is read after it was handed to std::move.) (R8) the same cursor invariant, shared with C01.R5: it is what makes the output cursor's bound checks meaningful. (R2) also: every cached size counter is at least as wide as the uint32_t header_size() it feeds, or exactly as wide as the wire length field the serialiser fills with it (found and fixed: LLC's 8-bit XID length wrapped after 85 fields and serialize() threw); LLC's information fields are a cache pair.",
         note="NOT decided: LLC's cached lengths (1 undecided instance), arbitrary building-API histories beyond R2, uint32 wrap "
              "of sizes. 'Fewer bytes written than counted' is noted, not a violation (zero gap, no overwrite).",
     ),
@@ -116,7 +116,7 @@ CLAIMED = {
              "every path); terminate-once-and-forget (callback => erase, erase only when finished/limits/idle, no iterator "
              "use after erase); limits compared after every packet; routing by destination address AND port; and the "
              "formulas finished <=> RST|RST|(FIN&FIN), create <=> (SYN&!ACK)|(attach&data), terminate <=> chunks>max|bytes>max, "
-             "FIN/RST always reach FIN_SENT/RST_SENT - each checked on its complete truth table. (R7) Flow::process_packet calls update_state() under no other condition than the presence of a TCP layer.",
+             "FIN/RST always reach FIN_SENT/RST_SENT - each checked on its complete truth table. (R7) Flow::process_packet calls update_state() under no other condition than the presence of a TCP layer. The key's operator< / operator== and the constructor's normalisation are EXECUTED over a two-valued domain per member when not written with std::tie (strict weak order whose equivalence is member-wise equality; endpoint pairs kept, smaller endpoint first); reachability of create / erase sites is computed as a function of the role conditions alone (formula.reach_table).",
         note="NOT decided: equality of the callback trace with a reference connection table under arbitrary interleavings; "
              "reassembly per direction is C06. User callbacks are assumed not to re-enter the follower.",
     ),
@@ -177,7 +177,7 @@ CLAIMED = {
              "start; (R3) it_len/FCS are derived at serialisation and the parser rejects a failed FCS only when an FCS is present; (R4) an inserted field's present bit is always recorded; "
              "(R5) one re-padding step leaves exactly the needed padding for all (existing, needed) pairs; (R6) "
              "`offset == offset0 + i + D` is an inductive invariant of update_paddings and every buffer edit addresses the "
-             "padding run being fixed - the rule that found the order-dependent layout corruption (fixed, 9ffa2d0). (R7) RadioTapWriter::write_option inserts at the position the field walk stopped at (or 0 in an empty buffer), never at buffer_.size().",
+             "padding run being fixed - the rule that found the order-dependent layout corruption (fixed, 9ffa2d0). (R7) RadioTapWriter::write_option inserts at the position the field walk stopped at (or 0 in an empty buffer), never at buffer_.size(). Getters of a field made of several scalars decode exactly one of the scalars the setter lays out (slot agreement), whether bytes are moved by memcpy or through the cursor classes.",
         note="NOT decided: last-write-wins and canonical layout over arbitrary setter sequences as a whole (the rules are "
              "necessary local conditions of it: table agreement, alignment origin, single-step correctness, cursor "
              "invariant), extended present words / vendor namespaces, parsing of hostile headers (C01).",
@@ -292,7 +292,7 @@ CLAIMED = {
              "(R6) iteration: increment_buffer / decrement_buffer (IPv6, hardware addresses) are the big-endian successor / predecessor "
              "for every carry length 0..N and return true exactly on wrap-around (abstract interpretation of the carry chain over "
              "{pivot, not pivot, any} bytes of the real length); the scalar IPv4 increment's flag means wrap-around too; the range "
-             "iterator takes its flag from increment(address_) in both the end sentinel and operator++ and compares address and flag. (R7) IPv4Address::from_prefix_length evaluated for all 33 prefix lengths and IPv6Address::from_prefix_length / operator/(HWAddress<6>, int) interpreted byte-wise for all 129 / 49: exact masks, no out-of-range shift (undefined behaviour reported as such); (R8) inet_ntop is given a buffer of at least INET6_ADDRSTRLEN / INET_ADDRSTRLEN bytes and that buffer's size. (R9) the hardware-address printer maps each of the 16 nibble values to its hexadecimal digit, high nibble first. (R4 also rejects scanf/strtoul-style parsing in the address text constructors.) (R10) the byte loops of HWAddress<6> (mask operators, broadcast fill) visit exactly positions 0..5.",
+             "iterator takes its flag from increment(address_) in both the end sentinel and operator++ and compares address and flag. (R7) IPv4Address::from_prefix_length evaluated for all 33 prefix lengths and IPv6Address::from_prefix_length / operator/(HWAddress<6>, int) interpreted byte-wise for all 129 / 49: exact masks, no out-of-range shift (undefined behaviour reported as such); (R8) inet_ntop is given a buffer of at least INET6_ADDRSTRLEN / INET_ADDRSTRLEN bytes and that buffer's size. (R9) the hardware-address printer maps each of the 16 nibble values to its hexadecimal digit, high nibble first. (R4 also rejects scanf/strtoul-style parsing in the address text constructors.) (R10) the byte loops of HWAddress<6> (mask operators, broadcast fill) visit exactly positions 0..5. (R11) the post-increment of the range iterators steps through the pre-increment of the same object, never through itself (an unconditional self-call never returns), and returns the copy taken before (found and fixed: `it++` recursed until the stack was exhausted). Text conversion rules execute the code for all 256 byte values, so lookup tables, helpers and arithmetic are judged alike.",
         note="NOT decided: IPv4/IPv6 text round trip (delegated to inet_pton/ntop), agreement of < with numeric byte order "
              "(IPv4 host-order storage), prefix-length masks at /0,/31,/32,/127,/128, group structure of the hardware "
              "grammar, the order of visited addresses as a whole (the successor function and the end protocol are decided, R6) - value-level.",
